@@ -143,6 +143,10 @@ def run_segment(seg):
                         loaded[m] = importlib.reload(sys.modules[m])
                     else:
                         loaded[m] = importlib.import_module(m)
+                for m in step.get("lazy_modules", []):
+                    # modules that only the pipeline itself imports (inside a function body): never imported here
+                    if m in sys.modules and how == "reload":
+                        importlib.reload(sys.modules[m])
             for (m, name, vsrc) in step.get("mutate", []):
                 mod = sys.modules[m] if m in sys.modules else importlib.import_module(m)
                 setattr(mod, name, eval(vsrc, {"__builtins__": __builtins__, **_value_ns()}))
@@ -175,6 +179,19 @@ def run_segment(seg):
                         so["side"] = pickle.load(f)
                 else:
                     so["side_error"] = r.stderr[-600:]
+        if step.get("store_damage") and mode == "impl":
+            # the state a killed writer leaves: blobs renamed into place whose metadata never followed
+            from vp import storemodel as SM
+
+            bdir = os.path.join(seg["store"]["dir"], "internal", "blobs")
+            if not os.path.isdir(bdir):
+                bdir = os.path.join(seg["store"]["dir"], "blobs")
+            so["damaged"] = 0
+            for fn in sorted(os.listdir(bdir)) if os.path.isdir(bdir) else []:
+                if fn.endswith(".meta"):
+                    os.remove(os.path.join(bdir, fn))
+                    so["damaged"] += 1
+            so["tree_before"] = SM.tree_hash(seg["store"]["dir"])
         vlog.clear()
         if cap is not None:
             cap.clear()
